@@ -29,11 +29,44 @@ class Ctx:
         if cn is None:
             return None
         out = []
+        # expression-level guards: the node lies in one arm of a ?: / the right operand of && or ||
+        x, child = node.get("_p"), node
+        while x is not None and x is not cn.ast and x.get("kind") not in ("CompoundStmt", "LambdaExpr"):
+            k = x.get("kind")
+            if k == "ConditionalOperator":
+                ch = [c for c in x.get("inner", []) if isinstance(c, dict) and c.get("kind")]
+                if len(ch) == 3 and child is not ch[0]:
+                    self._cond_atoms(ch[0], child is ch[1], out)
+            elif k == "BinaryOperator" and x.get("opcode") in ("&&", "||"):
+                ch = [c for c in x.get("inner", []) if isinstance(c, dict) and c.get("kind")]
+                if len(ch) == 2 and child is ch[1]:
+                    self._cond_atoms(ch[0], x.get("opcode") == "&&", out)
+            child = x
+            x = x.get("_p")
         for ast, val, en in g.dom_edges(cn, asserts=True):
             if en.from_assert and not asserts:
                 continue
             out.append((canon(ast), val, ast, en.from_assert))
         return out
+
+    def _cond_atoms(self, e, val, out):
+        """Decompose a condition known to have value `val` into atomic facts."""
+        from .expr import strip as _strip, children as _children
+        s = _strip(e)
+        k = s.get("kind")
+        if k == "UnaryOperator" and s.get("opcode") == "!":
+            return self._cond_atoms(_children(s)[0], not val, out)
+        if k == "BinaryOperator" and s.get("opcode") == "&&" and val:
+            for c in _children(s):
+                self._cond_atoms(c, True, out)
+            return
+        if k == "BinaryOperator" and s.get("opcode") == "||" and not val:
+            for c in _children(s):
+                self._cond_atoms(c, False, out)
+            return
+        if k == "BinaryOperator" and s.get("opcode") in ("&&", "||"):
+            return
+        out.append((canon(s), val, s, False))
 
     def func_containing(self, node):
         return self.eff.func_of_node(node)
